@@ -221,14 +221,67 @@ def models_tie(rep, hbin, seed):
     return ok, rows
 
 
+ITER_FAIL = {"1": "PreOrderIter order", "2": "PostOrderIter items (label, index, child_indices)",
+             "3": "RtlPostOrderIter items", "4": "VerbosePreOrderIter first yields / indices", "5": "VerbosePreOrderIter number of yields"}
+
+
+def iters_tie(rep, hbin, seed):
+    """iter/tree.rs iterators (through Miniscript and the concrete Policy) and the taproot tree builder
+    (through Tr::from_str) vs the Coq models, compared inside Coq"""
+    tdir = os.path.join(vlib.COQ, "Tables")
+    p = vlib.sh([hbin, "robust", "iters", str(seed)], timeout=600)
+    if p.returncode != 0:
+        raise RuntimeError("robust iters failed: " + p.stderr[-1500:])
+    open(os.path.join(tdir, "RobustIterCasesGen.v"), "w").write(p.stdout)
+    m = re.search(r"ITERS iter=(\d+) \(miniscript (\d+), policy (\d+)\) tap=(\d+)", p.stderr)
+    rows = [int(x) for x in m.groups()] if m else [0, 0, 0, 0]
+    c1 = vlib.coqc("Tables/RobustIterCasesGen.v")
+    if c1.returncode != 0:
+        raise RuntimeError("RobustIterCasesGen.v does not compile: " + c1.stderr[-1500:])
+    c2 = vlib.coqc("Tables/RobustIterCasesCheck.v")
+    flat = re.sub(r"\s+", " ", c2.stdout)
+    mi = re.search(r"= (\[.*?\]) : list \(N \* list N\)", flat)
+    mt = re.search(r"= (\[.*?\]) : list \(N \* \(N \* N\) \* \(N \* N\)\)", flat[mi.end():]) if mi else None
+    ok = c2.returncode == 0 and bool(mi) and bool(mt) and mi.group(1) == "[]" and mt.group(1) == "[]"
+    mc = re.search(r"= \((\d+)%nat, (\d+)%nat, (\d+)%nat, (\d+)%nat\)", flat)
+    info = {"iterator_trees": rows[0], "from_miniscript": rows[1], "from_concrete_policy": rows[2], "taproot_shapes": rows[3],
+            "tree_nodes": int(mc.group(2)) if mc else 0, "taproot_shapes_rejected_as_too_deep": int(mc.group(4)) if mc else 0,
+            "all_equal_inside_coq": ok}
+    if not ok:
+        names_i = dict((int(a), b) for a, b in re.findall(r"^ITER (\d+) (.*)$", p.stderr, flags=re.M))
+        names_t = dict((int(a), b) for a, b in re.findall(r"^TAP (\d+) (.*)$", p.stderr, flags=re.M))
+        bad_i = [(int(i), [ITER_FAIL.get(c.strip(), c.strip()) for c in cs.split(";") if c.strip()])
+                 for i, cs in re.findall(r"\((\d+), \[([0-9; ]*)\]\)", mi.group(1))] if mi else []
+        bad_t = [tuple(int(x) for x in t) for t in re.findall(r"\((\d+), \((\d+), (\d+)\), \((\d+), (\d+)\)\)", mt.group(1))] if mt else []
+        code = {0: "Err", 1: "Ok", 2: "PANIC"}
+        lines = ["iterator row %d (%s): differs in %s" % (i, names_i.get(i, "?")[:200], ", ".join(f)) for i, f in bad_i[:6]]
+        lines += ["taproot row %d: %s: implementation %s with %d leaves, model %s with %d leaves" % (
+                      i, names_t.get(i, "?")[:160], code.get(ci, ci), ni, code.get(cm, cm), nm) for i, ci, cm, ni, nm in bad_t[:6]]
+        if not (mi and mt):
+            lines.append("RobustIterCasesCheck.v did not evaluate: " + (c2.stderr or c2.stdout)[-600:])
+        # an input on which the IMPLEMENTATION panics is a failing input of the property itself
+        panics = [names_t.get(i, "?") for i, ci, cm, ni, nm in bad_t if ci == 2]
+        rep.violation("iters-tie", "the compiled code and the Coq models of iter/tree.rs / TapTreeBuilder disagree (%d iterator rows, %d taproot rows): %s" % (
+                          len(bad_i), len(bad_t), " | ".join(lines)),
+                      {"property": "C11", "broken_tie": "Tables/RobustIterCasesCheck.v: iter_bad = [] and tap_bad = []",
+                       "differing_iterator_rows": [{"row": i, "input": names_i.get(i, "?"), "failed": f} for i, f in bad_i[:40]],
+                       "differing_taproot_rows": [{"row": i, "descriptor": names_t.get(i, "?"), "implementation": code.get(ci, ci), "model": code.get(cm, cm),
+                                                   "leaves_implementation": ni, "leaves_model": nm} for i, ci, cm, ni, nm in bad_t[:40]],
+                       "implementation_panics_on": panics[:5],
+                       "replay": "python3 tools/check.py C11"}, found_input=bool(panics))
+    return ok, info
+
+
 def run(rep, tier, seed, replay):
     hbin = vlib.build_harness()
     if replay:
         return run_replay(rep, hbin, replay)
     ok, thms = vlib.proof_gates(rep, "C11")
     tie_ok, tie_rows = (False, [0, 0, 0, 0])
+    it_ok, it_info = (False, {})
     if ok:
         tie_ok, tie_rows = models_tie(rep, hbin, seed)
+        it_ok, it_info = iters_tie(rep, hbin, seed)
 
     # ---- panic-site inventory
     new, gone, cur, old = panic_sites.diff(vlib.REPO)
@@ -289,12 +342,14 @@ def run(rep, tier, seed, replay):
     unrep_keys = {u["key"] for u in unreproduced}
     clean = sum(1 for name in classes
                 if not any(f["class"] == name and f["key"] not in known_keys and f["key"] not in unrep_keys for f in fails))
-    obligations = len(thms) + 1 + 1 + n_classes
-    discharged = (len(thms) if ok else 0) + (1 if tie_ok else 0) + 1 + clean
+    obligations = len(thms) + 2 + 1 + n_classes
+    discharged = (len(thms) if ok else 0) + (1 if tie_ok else 0) + (1 if it_ok else 0) + 1 + clean
     rep.coverage.update({
         "obligations": obligations, "discharged": discharged,
-        "obligation_kinds": "%d theorems of Properties/C11.v + model/code tie inside Coq + inventory comparison + one 'no unknown failure' obligation per entry-point class (%d)" % (len(thms), n_classes),
+        "obligation_kinds": "%d theorems of Properties/C11.v + 2 model/code ties inside Coq (RobustCasesCheck, RobustIterCasesCheck) + inventory comparison + one 'no unknown failure' obligation per entry-point class (%d)" % (len(thms), n_classes),
+        "iterator_and_taptree_tie": it_info,
         "checker_cmd": "make -C coq; coqc Properties/C11.v; verif-harness robust models | coqc Tables/RobustCasesGen.v Tables/RobustCasesCheck.v; "
+                       "verif-harness robust iters | coqc Tables/RobustIterCasesGen.v Tables/RobustIterCasesCheck.v; "
                        "tools/panic_sites.py diff; verif-harness robust all <seed> <tier> --no-shrink",
         "trusted_base": vlib.TRUSTED_BASE_COMMON + [
             "harness/src/robust*.rs: supervisor, guards (catch_unwind, wall clock, counting allocator, thread stack), generators, shrinker",
@@ -337,6 +392,7 @@ def run_replay(rep, hbin, path):
         ok, thms = vlib.proof_gates(rep, "C11")
         if ok:
             models_tie(rep, hbin, rep.seed)
+            iters_tie(rep, hbin, rep.seed)
         return
     line = obj["input_line"]
     cls = obj["class"]
